@@ -256,7 +256,10 @@ class SArr(_nd):
         return float(_raw(self).reshape(-1)[0])
 
     def __repr__(self):
-        return 'SArr(%s, dtype=%s)' % (_raw(self).tolist(), self.ldtype)
+        return 'SArr(shape=%s, dtype=%s)' % (self.shape, self.ldtype)
+
+    def __format__(self, spec):
+        return repr(self)
 
     __str__ = __repr__
 
